@@ -4,6 +4,7 @@
 From Coq Require Import List NArith ZArith Lia Bool.
 From Verif Require Import Base.Outcome Wire.Item Gen.Consts Wire.Msgpack Wire.MsgpackProofs Wire.MsgpackRT.
 From Verif Require Import C10.MsgpackSpec C10.MsgpackProofs.
+From Verif Require Gen.Leaf2 C10.LeafTieMsgpack.
 Import ListNotations.
 
 (* ---------------- C10, MessagePack half ---------------- *)
@@ -44,6 +45,30 @@ Print Assumptions C10_msgpack_in_signed_overflow.
 (* non-vacuity: the executable spec decoder reads an encoder output as the same data; a
    non-minimal serialisation (int 64 holding 5, str 32 holding "a", array 32, timestamp 96) is
    permitted by [ser] and decoded by the library model *)
+(* source tie of the big-endian fields of every msgpack head / number: be_put 2/4/8 and be_get of
+   Wire/Msgpack.v EQUAL the functions the translator regenerates from the current helper.go
+   bigen.PutUint16/32/64 and bigen.Uint16/32/64 on every run (Gen/Leaf2.v), for every uint16 / uint32 /
+   uint64 and every [2]byte / [4]byte / [8]byte.  A behaviour-changing edit of one of these Go functions
+   breaks this obligation. *)
+Theorem C10_msgpack_bigen_src_tie :
+  (forall v, (v < 65536)%N ->
+     (let '(a, b) := Leaf2.bigenHelper_PutUint16 (Z.of_N v) in [a; b]) = map Z.of_N (be_put 2 v)) /\
+  (forall v, (v < 4294967296)%N -> Leaf2.bigenHelper_PutUint32 (Z.of_N v) = map Z.of_N (be_put 4 v)) /\
+  (forall v, (v < 18446744073709551616)%N -> Leaf2.bigenHelper_PutUint64 (Z.of_N v) = map Z.of_N (be_put 8 v)) /\
+  (forall a b, (a < 256)%N -> (b < 256)%N -> Leaf2.bigenHelper_Uint16 (map Z.of_N [a; b]) = Z.of_N (be_get [a; b])) /\
+  (forall a b c d, (a < 256)%N -> (b < 256)%N -> (c < 256)%N -> (d < 256)%N ->
+     Leaf2.bigenHelper_Uint32 (map Z.of_N [a; b; c; d]) = Z.of_N (be_get [a; b; c; d])) /\
+  (forall a b c d e f g h,
+     (a < 256)%N -> (b < 256)%N -> (c < 256)%N -> (d < 256)%N -> (e < 256)%N -> (f < 256)%N -> (g < 256)%N -> (h < 256)%N ->
+     Leaf2.bigenHelper_Uint64 (map Z.of_N [a; b; c; d; e; f; g; h]) = Z.of_N (be_get [a; b; c; d; e; f; g; h])).
+Proof. exact LeafTieMsgpack.mp_bigen_src_tie. Qed.
+Print Assumptions C10_msgpack_bigen_src_tie.
+
+Example C10_msgpack_bigen_src_tie_nonvacuous :
+  Leaf2.bigenHelper_PutUint64 72623859790382856 = [1; 2; 3; 4; 5; 6; 7; 8]%Z /\ be_put 8 72623859790382856 = [1; 2; 3; 4; 5; 6; 7; 8]%N /\
+  Leaf2.bigenHelper_Uint32 [255; 0; 0; 1]%Z = 4278190081%Z /\ be_get [255; 0; 0; 1]%N = 4278190081%N.
+Proof. vm_compute. repeat apply conj; reflexivity. Qed.
+
 Example C10_msgpack_out_nonvacuous :
   let O := mkeopts true false false false in
   let i := IMap [(IStr [107]%N, IArr [IInt (-33); IUint 300; IF32 1069547520; IBytes [1;2]%N; INil]);
